@@ -17,6 +17,27 @@ ASSUMPTIONS = ['sync.Pool returns the poisoned messages often enough (measured: 
                'skipDelimiter is written by no production code (grep), so pooled messages always carry false']
 STREAMS = []
 CUSTOM_CFG = '''formatter:
+  fields:
+    - type
+    - time_received_ns
+    - sequence_num
+    - sampling_rate
+    - sampler_address
+    - bytes
+    - packets
+    - src_addr
+    - dst_addr
+    - etype
+    - proto
+    - src_port
+    - dst_port
+    - in_if
+    - out_if
+    - cust_a
+    - cust_b
+  key:
+    - sampler_address
+    - cust_a
   protobuf:
     - name: cust_a
       index: 1001
@@ -103,6 +124,28 @@ def run(chk):
         alone.append('pipeall flow %s #0 #0 %s' % (cfg, probe))
         withp.append('pipeall flow %s #%x #%x %s %s' % (cfg, npre, poison, ' '.join(pre), probe))
         meta.append((npre, cfg != 'none', poison))
+    # 2b. custom fields then plain flows: the prefix consists of flows that DO carry custom mapped fields
+    # (sFlow samples with IPv4/UDP headers under the layer mappings of CUSTOM_CFG, IPFIX/v9 flows with the
+    # mapped elements), the probe of NetFlow v5 flows, which never carry one: a custom field of an earlier
+    # flow must not show up in the probe's JSON / text / protobuf
+    quads = []
+    for h in hists:
+        f = h.split(' ')
+        quads += [f[i:i + 4] for i in range(0, len(f) - 3, 4)]
+    v5q = [q for q in quads if q[3].startswith('=0005')]
+    sfq = [q for q in quads if q[3].startswith('=00000005')]
+    nfq = [q for q in quads if q[3].startswith('=0009') or q[3].startswith('=000a')]
+    for i in range(dict(quick=24, thorough=400)[chk.tier]):
+        if not v5q or not (sfq or nfq):
+            break
+        probe = readdress(' '.join(' '.join(q) for q in rng.sample(v5q, min(len(v5q), rng.choice([1, 2, 4])))))
+        src = sfq if (sfq and (i % 2 == 0 or not nfq)) else nfq
+        npre = rng.choice([3, 10, 40])
+        pre = [x for q in (rng.choice(src) for _ in range(npre)) for x in q]
+        cfg = cfgs[1]
+        alone.append('pipeall flow %s #0 #0 %s' % (cfg, probe))
+        withp.append('pipeall flow %s #%x #0 %s %s' % (cfg, npre, ' '.join(pre), probe))
+        meta.append((npre, True, 0))
     # each 'alone' run in a fresh process
     outs_alone = [impl_run(chk.harness, [a], timeout=60.0)[0] for a in alone]
     outs_with = impl_run(chk.harness, withp, timeout=240.0)
